@@ -181,6 +181,20 @@ def determinePartitions (st : ClientState) (t : Bytes) (req : List Int) : Except
     if req.isEmpty then .ok ((List.range ps.length).map fun (i : Nat) => (i : Int))
     else if req.all fun p => (partIdx ps p).isSome then .ok req else .error (.kafka 3)
 
+/-- the per-partition decision of `load_fetch_states` when the group has committed offsets (consumer/state.rs:318-352):
+    `consumed` is the loaded *consumed* offset (= committed − 1), `e`/`l` the earliest/latest offsets -/
+def startOffset (consumed : Option Int) (e l : Int) (fallback : Fallback) : Except Err Int :=
+  match consumed with
+  | some co =>
+    if co + 1 ≥ e ∧ co < l then .ok (co + 1)
+    else match fallback with
+      | .latest => .ok l | .earliest => .ok e | .byTime _ => .error (.kafka (-1))
+  | none => match fallback with
+      | .latest => .ok l | .earliest => .ok e | .byTime _ => .error (.kafka (-1))
+
+/-- `load_consumed_offsets`: a committed offset `o` is kept as consumed offset `o − 1`; −1 means nothing committed -/
+def consumedOf (committed : Int) : Option Int := if committed ≠ -1 then some (committed - 1) else none
+
 def pidx (offs : List (Bytes × List (Int × Int))) : List (Bytes × List (Int × Int)) :=
   offs.map fun (t, ps) => (t, ps.foldl (fun m (p, o) => assocSet m p o) [])
 
@@ -197,7 +211,10 @@ def loadState (env : Env σ) (group : Bytes) (fallback : Fallback)
         | (t, pos) :: r, acc =>
           match topicRef as t with
           | none => if pos.any (fun po => po.2 ≠ -1) then M.panic "consumer/state.rs:220 expect non-assigned topic" else ins r acc
-          | some tr => ins r (pos.foldl (fun acc (p, o) => if o ≠ -1 then assocSet acc ⟨tr, p⟩ ⟨o - 1, false⟩ else acc) acc)
+          | some tr => ins r (pos.foldl (fun acc (p, o) =>
+              match consumedOf o with
+              | some co => assocSet acc ⟨tr, p⟩ ⟨co, false⟩
+              | none => acc) acc)
       ins tpos [])
   -- load_fetch_states
   let c ← getClient
@@ -224,14 +241,7 @@ def loadState (env : Env σ) (group : Bytes) (fallback : Fallback)
         let tr := (topicRef as t).getD 0
         let l := ((assocGet latest t).bind (assocGet · p)).getD (-1)
         let e := ((assocGet earliest t).bind (assocGet · p)).getD (-1)
-        let off : Except Err Int :=
-          match assocGet consumed ⟨tr, p⟩ with
-          | some co =>
-            if co.offset + 1 ≥ e ∧ co.offset < l then .ok (co.offset + 1)
-            else match fallback with
-              | .latest => .ok l | .earliest => .ok e | .byTime _ => .error (.kafka (-1))
-          | none => match fallback with
-              | .latest => .ok l | .earliest => .ok e | .byTime _ => .error (.kafka (-1))
+        let off : Except Err Int := startOffset ((assocGet consumed ⟨tr, p⟩).map (·.offset)) e l fallback
         match off with
         | .ok o => go2 r (assocSet acc ⟨tr, p⟩ ⟨o, maxBytes⟩)
         | .error e => M.fail e
